@@ -6,12 +6,21 @@ VERIF = os.path.dirname(os.path.dirname(os.path.abspath(__file__)))
 REPO = os.environ.get("VERIF_REPO", "/repo")
 CACHE = os.path.join(VERIF, ".cache")
 COQ = os.path.join(VERIF, "coq")
+OCAML = os.path.join(VERIF, "ocaml")
 # Self-test mode (tools/seedtest.py): VERIF_REPO points at a scratch copy of the repository; the harness is then
 # built from a generated copy of harness/ whose path dependencies point there, with its own target, work and
 # evidence directories, so that nothing registered in MANIFEST.json is disturbed.
 ALT = REPO != "/repo"
 WORK = os.path.join(CACHE, "work-alt" if ALT else "work")
 EVIDENCE_DIR = os.path.join(CACHE, "evidence-alt") if ALT else os.path.join(VERIF, "evidence")
+if ALT:
+    # private copies of the Coq development and of the model runner's directory: the translators rewrite
+    # coq/Gen from the scratch tree and the extraction is rebuilt from it; the shared ones must not see that
+    os.makedirs(os.path.join(CACHE, "alt"), exist_ok=True)
+    for _d in ("coq", "ocaml"):
+        subprocess.run(["rsync", "-a", "--delete", os.path.join(VERIF, _d) + "/", os.path.join(CACHE, "alt", _d) + "/"], check=True)
+    COQ = os.path.join(CACHE, "alt", "coq")
+    OCAML = os.path.join(CACHE, "alt", "ocaml")
 GUARD = "rbx_dom_verif"
 
 ALLOWED_AXIOMS = {
@@ -244,7 +253,7 @@ def build_model(timeout=600):
         rc, out, _ = run(["make", "-j16"] + model_vos(), cwd=COQ, timeout=timeout)
         if rc != 0:
             return False, out
-        rc, out, _ = run(["sh", os.path.join(VERIF, "ocaml", "build.sh")], cwd=VERIF, timeout=timeout)
+        rc, out, _ = run(["sh", os.path.join(OCAML, "build.sh")], cwd=OCAML, timeout=timeout)
     return rc == 0, out
 
 
@@ -258,7 +267,7 @@ def model_vos():
     return [f[:-2] + ".vo" for f in deps]
 
 
-MODELRUN = os.path.join(VERIF, "ocaml", "modelrun")
+MODELRUN = os.path.join(OCAML, "modelrun")
 
 
 # ---------------------------------------------------------------- case files
